@@ -85,7 +85,7 @@ def gen_plan(rng, run_index, tier, opts):
             feed = "stale"
             cur = rng.choice(seen)
         seen.append(cur)
-        form = rng.choice(["mask", "list", "date", "date", "intidx", "intlist"])
+        form = rng.choice(["mask", "list", "date", "date", "intidx", "intlist", "npboollist"])
         if rng.random() < 0.06:
             now = T          # the whole horizon
         tk = {"now": now, "feed": feed, "curve": cur, "form": form,
@@ -281,6 +281,8 @@ class Desk:
             I = np.array([i in W for i in range(T)], dtype=bool)
         elif tk["form"] == "list":
             I = [bool(i in W) for i in range(T)]
+        elif tk["form"] == "npboollist":
+            I = list(np.array([i in W for i in range(T)], dtype=bool))   # list(mask): numpy.bool_ scalars, not Python bools
         elif tk["form"] == "intidx":
             I = np.array(sorted(W), dtype=int)       # "indices on timegrid" (docstring of fix_time_window)
         elif tk["form"] == "intlist":
